@@ -17,7 +17,7 @@ from core import Stream, hexs, unhex
 
 ID = "C04"
 DESIGN_REF = "DESIGN.md section 5, C04"
-LEAN_TARGETS = ["PV.C04.Thm"]
+LEAN_TARGETS = ["PV.C04.Thm", "PV.C04.ProgRules"]
 DRIVER = "drv_c04"
 HARNESS = {"bin": "pvh_c04", "features": "default"}
 THEOREMS = [
@@ -66,6 +66,38 @@ THEOREMS = [
     "PV.C04.lexStringBody_closed_iff",
     "PV.C04.bytesLit_rejects_nonAscii",
     "PV.C04.bytesLit_nonAscii_only",
+    # --- rejection BY THE WHOLE PARSER (PV.C04.ProgRules over the program-level reference parser PV.Prog) ---
+    "PV.C04.PR.dup_param_rejected",
+    "PV.C04.PR.dup_param_items",
+    "PV.C04.PR.default_order_rejected",
+    "PV.C04.PR.bare_star_rejected",
+    "PV.C04.PR.bare_star_then_kwargs_accepted",
+    "PV.C04.PR.positional_after_keyword_rejected",
+    "PV.C04.PR.unpack_after_double_star_rejected",
+    "PV.C04.PR.repeated_keyword_rejected",
+    "PV.C04.PR.argsReach_remembers",
+    "PV.C04.PR.paren_lone_star_rejected",
+    "PV.C04.PR.as_underscore_rejected",
+    "PV.C04.PR.as_underscore_nested_rejected",
+    "PV.C04.PR.dup_param_only_reason",
+    "PV.C04.PR.def_accepted_of_valid",
+    # the context lemmas (any nesting depth) and the induction over the 89 functions of both reference parsers
+    "PV.C04.PR.c11Seg",
+    "PV.C04.PR.progSeg",
+    "PV.C04.PR.patSeg",
+    "PV.C04.PR.top_at",
+    "PV.C04.PR.lambda_context",
+    "PV.C04.PR.def_context",
+    "PV.C04.PR.class_context",
+    "PV.C04.PR.case_context",
+    "PV.C04.PR.return_context",
+    "PV.C04.PR.at_context",
+    "PV.C04.PR.line_context",
+    "PV.C04.PR.first_line_context",
+    "PV.C04.PR.operandSite_rejected",
+    "PV.C04.PR.argSite_rejected",
+    "PV.C04.PR.exDupMethod_rejected",
+    "PV.C04.PR.exAsUnderscoreNested_rejected",
 ]
 TRUSTED = [
     "Lean 4.33.0 kernel; axioms limited to propext, Classical.choice, Quot.sound",
@@ -79,8 +111,25 @@ TRUSTED = [
     "exponent digit / the empty digit string)",
     "CPython 3.11.7 (ast.parse / compile) as the meaning of 'Python rejects' for spec validation",
     "tools/props/c04.py (generators, independent Python oracle), harness/src/bin/pvh_c04.rs, lean/Drv/C04.lean",
+    "for the whole-parser theorems (PV.C04.ProgRules): the program-level reference parser PV.Prog.parseProgram / "
+    "PV.C11.Spec, hand-written from python.lalrpop and tied to rustpython_parser::parse by C01's prog-* / PROG's "
+    "correspondence streams (same trees or both reject, on the real token stream), not by this check; its fuel "
+    "monotonicity (PV.Prog.Mono / MonoC11, generated proofs) is what turns 'rejected' into 'rejected with every fuel'",
 ]
 PARTIAL = [
+    "whole-parser rejection (PV.C04.ProgRules) is proved for the grammar-level rules at these sites: parameter lists at "
+    "every def token (async, decorated, methods, nested: any depth) and every lambda token (any expression depth); "
+    "argument lists of every class statement (any depth) and of calls NAME(.NAME)*( … ) standing at the HEAD of an "
+    "expression statement after any line break (any suite depth), of an assignment value on such a line, of a return "
+    "value (any depth), of a decorator / right operand of '@' (any depth); parenthesised lone * / ** at the same "
+    "operand positions; 'as _' directly after case and anywhere inside the pattern as long as no ':' / 'if' token "
+    "precedes it in the pattern. NOT covered by a theorem (sampled by the site catalogue only): calls and parenthesised "
+    "stars that are not the first operand of the expression (x + f(a=1, b), g(1, h(a=1, b)), f(…)(y), subscripts, "
+    "with-items, for-iterables, if/while conditions, defaults, lambda bodies, class keyword values), callees other "
+    "than dotted names, 'as _' after a mapping-pattern ':' (case {0: x as _}); the violating list itself is described "
+    "through the parser's own item loops (parseTypedParams / parseParams without validation, TypedReach / LamReach / "
+    "ArgsReach) — token-level only for lists printed from items (dup_param_items); error kind and offset are not part "
+    "of these theorems (the reference parser has no error values); lexer-level rules are the lex_rejects family, not redone",
     "number lexer: proved 'whatever is taken as one numeric token is a Python numeric literal' (lexRest_sound, hence "
     "malformed_number_rejected); the converse (every Python literal is taken whole) is not proved, only sampled "
     "exhaustively to length 5 and validated against CPython; one shape below Python is witnessed (1.else, C01's finding)",
@@ -114,11 +163,18 @@ LEVEL_TEXT = ("Machine-checked Lean 4 theorems, for inputs of every size, about 
               "bracket words <=5/7, indentation scripts <=3-4 lines, numerals <=4/6, strings <=6/8, f-string bodies "
               "<=5/7) at every syntactic site, and the "
               "real parser is judged by an independent Python oracle validated against CPython; 23 kinds of single "
-              "rule-violating edits are applied at every site of template programs.")
+              "rule-violating edits are applied at every site of template programs. For the grammar-level rules (duplicate "
+              "/ mis-ordered parameters, bare *, positional after keyword, * after **, repeated keyword, parenthesised lone "
+              "* / **, 'as _') rejection BY THE WHOLE PARSER is a theorem over the program-level Lean reference parser "
+              "(PV.C04.ProgRules): in every mode and with every fuel, at every def / lambda / class / case token of the "
+              "input whatever its nesting depth, and for calls / parenthesised atoms heading an expression statement, an "
+              "assignment value, a return value or a decorator; lifted by context lemmas proved by one generated induction "
+              "over all 89 functions of the reference parsers.")
 LEVEL_NOTE = ("Trusted: Lean kernel (axioms propext/Classical.choice/Quot.sound only); fidelity of the hand-written kernels as "
               "sampled by correspondence; the LALRPOP automaton (not modelled: order of reductions and the small token "
               "grammars are sampled); f64::from_str / BigInt::from_str_radix contracts; CPython 3.11.7 as reference; the "
-              "harness, driver and generators. One known finding (soft-keyword look-ahead masks errors on match/case "
+              "harness, driver and generators; for the whole-parser theorems the tie of PV.Prog.parseProgram to the real "
+              "parser (C01 / PROG prog-* correspondence). One known finding (soft-keyword look-ahead masks errors on match/case "
               "lines); the f-string finding ('=' followed by a delimiter accepted) is fixed in /repo by d717a96.")
 RULE = ("request lines (abstract construct x syntactic context) sent to both the real parser and the Lean model; "
         "distinct = distinct request line; non-trivial = the construct breaks at least one catalogue rule")
